@@ -64,6 +64,7 @@ structure XFlow where
   procs : List PInst := []
   req : List XConn := []
   res : List XConn := []
+  status : List Nat := []                      -- `filter.status_code`
 deriving DecidableEq, Repr, Inhabited
 
 def XFlow.conns (f : XFlow) : Dir → List XConn
@@ -626,8 +627,38 @@ def walkFuel (fls : List Flow) : Nat :=
 
 def selected (fls : List Flow) : Selected := { user := fls }
 
-def runTxn (fls : List Flow) (o : Oracle) (d : Dir) : TxnRes :=
-  transaction (selected fls) o (walkFuel fls) d
+/-- `filter.status_code` of the flow called `name` -/
+def statusOf (c : Cfg) (name : String) : List Nat :=
+  match c.flows.reverse.find? (·.name == name) with
+  | some f => f.status
+  | none => []
+
+/-- the flows the filter tree selects for a RESPONSE-type stream (`isStatusCodeQualified`): no status filter, or
+    the response's status is listed.  `status = none`: there is no response — the response walk of an early
+    response; a status filter cannot be evaluated and the flow does not qualify (fix of F05e). -/
+def respSel (c : Cfg) (fls : List Flow) (status : Option Nat) : List Flow :=
+  fls.filter fun f =>
+    (statusOf c f.name).isEmpty ||
+      (match status with
+       | some st => (statusOf c f.name).contains st
+       | none => false)
+
+/-- `Stream.executeReq` (no system flows here): every flow runs on the request; after a short-circuit the
+    filter tree is asked again for the response-type stream, which has no response yet -/
+def executeReq5 (all resFls : List Flow) (o : Oracle) (fuel : Nat) : TxnRes :=
+  match runUserReq o fuel all with
+  | (bt, sc, be) =>
+    if be.isSome then { trace := bt, err := be } else
+    match sc with
+    | none => { trace := bt }
+    | some _ =>
+      let r := executeRes (selected resFls) o fuel sc
+      { r with trace := bt ++ r.trace }
+
+/-- a transaction of the harness: a request, or a response with status 200 -/
+def runTxn (c : Cfg) (fls : List Flow) (o : Oracle) : Dir → TxnRes
+  | .req => executeReq5 fls (respSel c fls none) o (walkFuel fls)
+  | .res => transaction (selected (respSel c fls (some 200))) o (walkFuel fls) .res
 
 /-- number of processor executions in a trace -/
 def steps (t : List Event) : Nat :=
